@@ -8,8 +8,8 @@ CONSTANTS N, M
 VARIABLES seq, verdictIdeal, verdictSticky
 INSTANCE ParserSeq
 
-VARIABLES l, memo, bad, cnt
-tvars == <<seq, verdictIdeal, verdictSticky, l, memo, bad, cnt>>
+VARIABLES l, memo, bad, cnt, self
+tvars == <<seq, verdictIdeal, verdictSticky, l, memo, bad, cnt, self>>
 Trace == ndJsonDeserialize("trace.ndjson")
 Reasons == {"stale-state", "fresh-not-deterministic", "no-fresh-reference", "hang", "panic"}
 Note(b, r) == IF \E i \in 1..Len(b) : b[i].reason = r.reason /\ b[i].fields = r.fields THEN b
@@ -30,19 +30,24 @@ Where(a, b) ==
                  ELSE {a.dt[i] \o "." \o f : f \in fs} : i \in 1..Len(a.ds)}
 
 TInit == /\ seq = <<>> /\ verdictIdeal = "ok" /\ verdictSticky = "ok"
-         /\ l = 1 /\ memo = EmptyMemo /\ bad = <<>> /\ cnt = [x \in Reasons |-> 0]
+         /\ l = 1 /\ memo = EmptyMemo /\ bad = <<>> /\ cnt = [x \in Reasons |-> 0] /\ self = <<>>
 Step ==
   /\ l <= Len(Trace)
   /\ l' = l + 1
   /\ UNCHANGED <<seq, verdictIdeal, verdictSticky>>
   /\ LET e == Trace[l]
          r == Judge(memo, e)
-     IN /\ memo' = r[2]
+     IN IF e.sc < 0       \* binding self-test events appended by the check: reported apart, never counted
+        THEN /\ self' = Append(self, [line |-> l, sc |-> e.sc, reason |-> r[1]])
+             /\ UNCHANGED <<memo, bad, cnt>>
+        ELSE
+        /\ memo' = r[2]
+        /\ UNCHANGED self
         /\ IF r[1] = "ok" THEN UNCHANGED <<bad, cnt>>
            ELSE /\ bad' = Note(bad, [sc |-> e.sc, line |-> l, op |-> e.op, reason |-> r[1],
                                      fields |-> IF r[1] \in {"stale-state", "fresh-not-deterministic"}
                                                 THEN Where(memo[e.key], e.val) ELSE {}])
                 /\ cnt' = IF r[1] \in Reasons THEN [cnt EXCEPT ![r[1]] = @ + 1] ELSE cnt
 TSpec == TInit /\ [][Step]_tvars
-Done == l = Len(Trace) + 1 => PrintT("VERDICT " \o ToJson([lines |-> Len(Trace), bad |-> bad, cnt |-> cnt]))
+Done == l = Len(Trace) + 1 => PrintT("VERDICT " \o ToJson([lines |-> Len(Trace), bad |-> bad, cnt |-> cnt, self |-> self]))
 =============================================================================
